@@ -62,8 +62,105 @@ def _is_self_attr(e, attr):
     return isinstance(e, ast.Attribute) and e.attr == attr and isinstance(e.value, ast.Name) and e.value.id == "self"
 
 
+PROTECTED_NAMES = {"NODE_STATUS_GOOD", "NODE_STATUS_UNKNOWN", "NODE_STATUS_BAD", "MAX_BUCKET_SIZE"}
+
+
+def _module_int_constants(tree) -> dict:
+    """module-level `NAME = <integer expression over literals and earlier such names>` (never re-assigned at module level)"""
+    env, seen = {}, {}
+
+    def ev(e):
+        if isinstance(e, ast.Constant) and isinstance(e.value, int) and not isinstance(e.value, bool):
+            return e.value
+        if isinstance(e, ast.Name) and e.id in env:
+            return env[e.id]
+        if isinstance(e, ast.UnaryOp) and isinstance(e.op, ast.USub):
+            return -ev(e.operand)
+        if isinstance(e, ast.BinOp) and type(e.op) in (ast.Add, ast.Sub, ast.Mult, ast.FloorDiv, ast.Pow):
+            a, b = ev(e.left), ev(e.right)
+            return {ast.Add: lambda: a + b, ast.Sub: lambda: a - b, ast.Mult: lambda: a * b,
+                    ast.FloorDiv: lambda: a // b, ast.Pow: lambda: a ** b if 0 <= b <= 64 else 1 // 0}[type(e.op)]()
+        raise ValueError
+    for n in tree.body:
+        targets = n.targets if isinstance(n, ast.Assign) else [n.target] if isinstance(n, ast.AnnAssign) and n.value else []
+        for t in targets:
+            if isinstance(t, ast.Name):
+                seen[t.id] = seen.get(t.id, 0) + 1
+                try:
+                    env[t.id] = ev(n.value)
+                except (ValueError, ZeroDivisionError, KeyError):
+                    env.pop(t.id, None)
+    return {k: v for k, v in env.items() if seen.get(k) == 1 and k not in PROTECTED_NAMES}
+
+
+class _Normalise(ast.NodeTransformer):
+    """equivalent rewrites that the extraction below should not care about: named module-level integer constants are
+    replaced by their values inside functions (unless a local or parameter shadows them), and f-strings / str.format-free
+    format specs whose pieces are all literals are folded to one string literal (f"0{160}b" -> "0160b")"""
+
+    def __init__(self, consts):
+        self.consts = consts
+        self.shadow = [set()]
+
+    def visit_FunctionDef(self, node):
+        local = {a.arg for a in node.args.args + node.args.kwonlyargs + node.args.posonlyargs}
+        for x in ast.walk(node):
+            if isinstance(x, ast.Name) and isinstance(x.ctx, (ast.Store, ast.Del)):
+                local.add(x.id)
+            elif isinstance(x, (ast.Global, ast.Nonlocal)):
+                local.update(x.names)
+        self.shadow.append(local)
+        self.generic_visit(node)
+        self.shadow.pop()
+        return node
+    visit_AsyncFunctionDef = visit_FunctionDef
+
+    def visit_Name(self, node):
+        if len(self.shadow) > 1 and isinstance(node.ctx, ast.Load) and node.id in self.consts \
+                and not any(node.id in sh for sh in self.shadow):
+            return ast.copy_location(ast.Constant(self.consts[node.id]), node)
+        return node
+
+    def visit_JoinedStr(self, node):
+        self.generic_visit(node)
+        parts = []
+        for v in node.values:
+            if isinstance(v, ast.Constant) and isinstance(v.value, str):
+                parts.append(v.value)
+            elif isinstance(v, ast.FormattedValue) and v.conversion == -1 and v.format_spec is None \
+                    and isinstance(v.value, ast.Constant) and isinstance(v.value.value, int) and not isinstance(v.value.value, bool):
+                parts.append(str(v.value.value))
+            else:
+                return node
+        return ast.copy_location(ast.Constant("".join(parts)), node)
+
+
+def _normalise(tree):
+    tree = _Normalise(_module_int_constants(tree)).visit(tree)
+    ast.fix_missing_locations(tree)
+    return tree
+
+
+def _private_helpers(cls, root):
+    """the methods of `cls` reachable from `root` through calls `self._name(...)` / `<Class>._name(...)` / `cls._name(...)`
+    (private helpers only), root first"""
+    methods = {n.name: n for n in cls.body if isinstance(n, (ast.FunctionDef, ast.AsyncFunctionDef))}
+    out, todo = [root], [root]
+    while todo:
+        f = todo.pop()
+        for c in ast.walk(f):
+            if isinstance(c, ast.Call) and isinstance(c.func, ast.Attribute) and c.func.attr.startswith("_") \
+                    and not c.func.attr.startswith("__") and isinstance(c.func.value, ast.Name) \
+                    and c.func.value.id in ("self", "cls", cls.name) and c.func.attr in methods:
+                h = methods[c.func.attr]
+                if h not in out:
+                    out.append(h)
+                    todo.append(h)
+    return out
+
+
 def extract() -> dict:
-    tree = ast.parse((REPO / SRC).read_text())
+    tree = _normalise(ast.parse((REPO / SRC).read_text()))
     consts = {}
     for n in tree.body:
         if isinstance(n, ast.Assign) and len(n.targets) == 1 and isinstance(n.targets[0], ast.Name):
@@ -306,9 +403,31 @@ def extract() -> dict:
                     return False
         return True
 
+    # private helpers that (transitively) contain a split(): a call of such a helper counts as a split() call, and the
+    # direct split() inside the helper is covered by the guards at ALL of its call sites
+    rt_methods = {n.name: n for n in rt.body if isinstance(n, (ast.FunctionDef, ast.AsyncFunctionDef))}
+    direct_split = is_split_call
+    splitters = {name for name, f in rt_methods.items() if name.startswith("_") and not name.startswith("__")
+                 and mentions(f, direct_split)}
+    changed = True
+    while changed:
+        changed = False
+        for name, f in rt_methods.items():
+            if name.startswith("_") and not name.startswith("__") and name not in splitters and mentions(
+                    f, lambda x: isinstance(x, ast.Call) and isinstance(x.func, ast.Attribute) and x.func.attr in splitters
+                    and isinstance(x.func.value, ast.Name) and x.func.value.id in ("self", "cls", "RoutingTable")):
+                splitters.add(name)
+                changed = True
+
+    def is_split_call(x):  # noqa: F811  (from here on: a direct split() or a call of a splitting private helper)
+        return direct_split(x) or (isinstance(x, ast.Call) and isinstance(x.func, ast.Attribute) and x.func.attr in splitters
+                                   and isinstance(x.func.value, ast.Name) and x.func.value.id in ("self", "cls", "RoutingTable"))
     if not mentions(radd, is_split_call):
-        raise TranslatorError("RoutingTable.add: no call of split() found")
-    split_guard = guarded(radd.body, False)
+        raise TranslatorError("RoutingTable.add: no call of split() (direct or through a private helper) found")
+    # every method that can reach a split() must guard it - except inside the splitting helpers themselves, whose own call
+    # sites carry the guard
+    split_guard = all(guarded(f.body, False) for name, f in rt_methods.items()
+                      if name not in splitters and mentions(f, is_split_call))
 
     # Bucket.split: both children are constructed with the parent's capacity
     kids = [c for c in ast.walk(split) if isinstance(c, ast.Call) and isinstance(c.func, ast.Name) and c.func.id == "Bucket"]
@@ -321,9 +440,11 @@ def extract() -> dict:
     inherit_cap = all(passes_cap(c) for c in kids)
 
     # closest_nodes: the filter, the range of the level walk, the sort key
-    comp_ifs = [i for c in ast.walk(cn) if isinstance(c, (ast.DictComp, ast.SetComp, ast.ListComp, ast.GeneratorExp))
+    cn_scope = _private_helpers(rt, cn)         # closest_nodes and the private helpers it collects through
+    cn_nodes = [x for f in cn_scope for x in ast.walk(f)]
+    comp_ifs = [i for c in cn_nodes if isinstance(c, (ast.DictComp, ast.SetComp, ast.ListComp, ast.GeneratorExp))
                 for g_ in c.generators for i in g_.ifs]
-    all_tests = comp_ifs + [c.test for c in ast.walk(cn) if isinstance(c, ast.If)]
+    all_tests = comp_ifs + [c.test for c in cn_nodes if isinstance(c, ast.If)]
 
     def is_bad_filter(x):
         return (isinstance(x, ast.Compare) and len(x.ops) == 1 and isinstance(x.ops[0], ast.NotEq)
@@ -339,8 +460,8 @@ def extract() -> dict:
         return (isinstance(c, ast.If) and c.body and isinstance(c.body[-1], ast.Continue) and not c.orelse and mentions(
             c.test, lambda x: isinstance(x, ast.Compare) and len(x.ops) == 1 and isinstance(x.ops[0], ast.Eq)
             and isinstance(x.left, ast.Attribute) and x.left.attr == attr and rhs_ok(x.comparators[0])))
-    skip_bad = any(skips(c, "status", lambda r: isinstance(r, ast.Name) and r.id == "NODE_STATUS_BAD") for c in ast.walk(cn))
-    skip_excl = any(skips(c, "id", lambda r: isinstance(r, ast.Attribute) and r.attr == "id") for c in ast.walk(cn))
+    skip_bad = any(skips(c, "status", lambda r: isinstance(r, ast.Name) and r.id == "NODE_STATUS_BAD") for c in cn_nodes)
+    skip_excl = any(skips(c, "id", lambda r: isinstance(r, ast.Attribute) and r.attr == "id") for c in cn_nodes)
     filters_bad = skip_bad or any(mentions(t, is_bad_filter) for t in all_tests)
     excludes_by_id = skip_excl or any(mentions(t, is_id_exclusion) for t in all_tests)
     from_root = None
